@@ -51,6 +51,11 @@ pub struct PlaceCase {
     /// speaks about it because it is the fake that is installed
     #[serde(default)]
     pub prior: Vec<(Kind, u8)>,
+    /// also call the function when the library flushes the entry it has just patched (the
+    /// earliest moment a caller on another thread can meet the new code); only without earlier
+    /// installations
+    #[serde(default)]
+    pub early: bool,
 }
 
 #[derive(Serialize, Deserialize, Clone, Debug, Default)]
@@ -128,6 +133,9 @@ pub struct PlaceObs {
     pub mmap_calls: u64,
     #[serde(default)]
     pub priors: u8,
+    /// value returned to the call made from the flush hook (None = no such call was made)
+    #[serde(default)]
+    pub early_value: Option<u64>,
     pub text: (u64, u64),
     pub straddles: bool,
 }
@@ -345,6 +353,28 @@ pub fn execute(c: &PlaceCase) -> PlaceObs {
     // ---- install
     crate::worker::phase("install");
     let orig_runs0 = targets::ORIG_RUNS.load(SeqCst);
+    let early_val: std::rc::Rc<std::cell::Cell<Option<u64>>> = Default::default();
+    if c.early && c.prior.is_empty() {
+        let ev = early_val.clone();
+        let (addr, class) = (target.addr, target.class);
+        ip::set_flush_hook(target.addr, Box::new(move || {
+            crate::worker::phase("call-during-install");
+            let v = std::panic::catch_unwind(|| unsafe {
+                match class {
+                    Class::B => (std::mem::transmute::<usize, fn() -> bool>(addr))() as u64,
+                    Class::U => (std::mem::transmute::<usize, fn() -> u64>(addr))(),
+                    Class::L => (std::mem::transmute::<usize, unsafe extern "C" fn(libc::c_long) -> libc::c_long>(addr))(-5) as u64,
+                    Class::M => {
+                        static W: targets::Widget = targets::Widget { v: 7 };
+                        (std::mem::transmute::<usize, fn(&targets::Widget) -> u64>(addr))(&W)
+                    }
+                    Class::A => u64::MAX,
+                }
+            });
+            ev.set(Some(v.unwrap_or(u64::MAX - 1)));
+            crate::worker::phase("install");
+        }));
+    }
     let res = std::panic::catch_unwind(std::panic::AssertUnwindSafe(|| {
         ip::sut(|| {
             let mut inj = inj;
@@ -371,6 +401,8 @@ pub fn execute(c: &PlaceCase) -> PlaceObs {
         })
     }));
     ip::MODE.store(ip::MODE_PASS, SeqCst);
+    ip::clear_flush_hook();
+    o.early_value = early_val.get();
     o.mmap_calls = ip::MMAP_CALLS.load(SeqCst);
     o.during = crate::mem::read_bytes(target.addr, 32);
     let (inj, inst) = match res {
@@ -515,7 +547,7 @@ pub fn strategy() -> impl Strategy<Value = PlaceCase> {
         // the pattern "X, something else, X again": a re-fake equal to an earlier one
         1 => (kind_strategy(), kind_strategy(), 0u8..4).prop_map(|(a, b, k)| vec![(a, k), (b, k)]),
     ];
-    (target, tramp, fake, prop_oneof![3 => Just(0u8), 1 => 1u8..=4], prior).prop_map(|(target, tramp, fake, callers, prior)| {
+    (target, tramp, fake, prop_oneof![3 => Just(0u8), 1 => 1u8..=4], prior, prop::bool::weighted(0.2)).prop_map(|(target, tramp, fake, callers, prior, early)| {
         // a synthetic fake needs a dictated trampoline; real targets keep the kernel's choice
         let (tramp, fake) = match (&target, tramp, fake) {
             (TargetSel::RealAsync(_), _, _) => (TrampSel::Kernel, FakeSel::Rust { kind: Kind::Raw, k: 0 }),
@@ -531,6 +563,7 @@ pub fn strategy() -> impl Strategy<Value = PlaceCase> {
             _ => fake,
         };
         let prior = if matches!(target, TargetSel::RealAsync(_)) { vec![] } else { prior };
-        PlaceCase { target, tramp, fake, callers, prior }
+        let early = early && prior.is_empty() && !matches!(target, TargetSel::RealAsync(_));
+        PlaceCase { target, tramp, fake, callers, prior, early }
     })
 }
